@@ -58,7 +58,8 @@ where
                 .iter()
                 .map(|slot| {
                     (
-                        slot.generation,
+                        // (a conversion, so that the hook builds whatever the counter's width)
+                        u64::try_from(slot.generation).unwrap_or(u64::MAX),
                         slot.location.map(|location| {
                             (resolve(location.identifier.verif_pointer()), location.index)
                         }),
